@@ -127,11 +127,13 @@ impl BigRat {
 	}
 
 	pub(crate) fn deserialize(read: &mut impl io::Read) -> FResult<Self> {
-		Ok(Self {
-			sign: Sign::deserialize(read)?,
-			num: BigUint::deserialize(read)?,
-			den: BigUint::deserialize(read)?,
-		})
+		let sign = Sign::deserialize(read)?;
+		let num = BigUint::deserialize(read)?;
+		let den = BigUint::deserialize(read)?;
+		if den == 0.into() {
+			return Err(FendError::DeserializationError);
+		}
+		Ok(Self { sign, num, den })
 	}
 
 	pub(crate) fn is_integer(&self) -> bool {
